@@ -558,4 +558,3 @@ func (e *env) probe(p *prober, lower, upper []byte, prb [][]byte, vloK []byte, b
 	}
 	return true
 }
-
